@@ -208,6 +208,26 @@ def run_C08(ctx):
         b.meta['is_twin'] = True
         pairs.append((a, b))
         cases += [a, b]
+    # Nearest at ratios whose instants fall exactly on input frames (every position is exact in binary): "the sample at or
+    # just before the instant" leaves no freedom, at any chunk size
+    for i, (kind, ratio, chunk) in enumerate([('fastin', 1.0, 7), ('fastout', 2.0, 1), ('fastin', 0.5, 32), ('fastout', 1.0, 100),
+                                              ('fastin', 4.0, 1), ('fastout', 0.25, 7), ('fastin', 2.0, 33), ('fastout', 0.5, 1)]):
+        if ctx.quick and i >= 4:
+            break
+        r = rng.fork("near%d" % i)
+        cfg = async_cfg(r, kind, tier, deg=4, nch=1, maxrel=1.0)
+        cfg.update({'ratio': ratio, 'chunk': chunk, 'ty': ['f64', 'f32'][i % 2]})
+        seedfork = r.fork('ops')
+        n_ops = 8 if chunk >= 7 else 40
+        a = valid_async_history(Rng(seedfork.s), kind, tier, "near_%03d_a" % i, nops=n_ops, cfg=dict(cfg),
+                                allow_out_of_envelope=False, ops_allowed=['pib'], sig="ramp", no_mask=True)
+        cfgb = dict(cfg); cfgb['deg'] = 3
+        b = valid_async_history(Rng(seedfork.s), kind, tier, "near_%03d_b" % i, nops=len(a.meta['ops']), cfg=cfgb,
+                                allow_out_of_envelope=False, ops_allowed=['pib'], sig="ramp", no_mask=True)
+        a.meta.update(coeffs=[0.0], twin=b, degree=4, exact_positions=True)
+        b.meta['is_twin'] = True
+        pairs.append((a, b))
+        cases += [a, b]
 
     def judge(c):
         out = []
@@ -235,6 +255,8 @@ def run_C08(ctx):
                     want = math.floor(tau + (1e-9 if ty == 'f64' else 1e-3) * max(1.0, abs(tau)))     # ramp: sample at floor(instant)
                     # instants that are integers up to rounding may legitimately resolve either way
                     ok = (v == math.floor(tau)) or (v == want) or abs(tau - round(tau)) < (1e-6 if ty == 'f64' else 1e-2)
+                    if c.meta.get('exact_positions'):
+                        ok = (v == math.floor(tau))      # dyadic ratio: the position arithmetic is exact, so is the instant
                 else:
                     want = sum(cf * tau ** k for k, cf in enumerate(coeffs))
                     scale = 1.0 + sum(abs(cf) * abs(tau) ** k for k, cf in enumerate(coeffs))
@@ -300,11 +322,11 @@ def run_C12(ctx):
                 t = r.below(10)
                 if t < 5:
                     v = r.choice(vals[:2] + vals[3:7]) if r.chance(0.6) else r.choice(vals)
-                    lines.append("SETRATIO x=%s ramp=%d" % (f64hex(v), r.below(2)))
+                    lines.append("SETRATIO x=%s ramp=%d%s" % (f64hex(v), r.below(2), " via=vec" if len(lines) % 2 == 0 else ""))
                     ann.append(('abs', v))
                 elif t < 8:
                     v = r.choice(rels[:2] + rels[3:7]) if r.chance(0.6) else r.choice(rels)
-                    lines.append("SETREL x=%s ramp=%d" % (f64hex(v), r.below(2)))
+                    lines.append("SETREL x=%s ramp=%d%s" % (f64hex(v), r.below(2), " via=vec" if len(lines) % 2 == 0 else ""))
                     ann.append(('rel', v))
                 else:
                     v = r.choice([0, 1, cfg['chunk'], cfg['chunk'] + 1, 2 ** 40, max(1, cfg['chunk'] // 2)])
@@ -323,10 +345,10 @@ def run_C12(ctx):
             for _ in range(6):
                 t = r.below(3)
                 if t == 0:
-                    lines.append("SETRATIO x=%s ramp=%d" % (f64hex(r.choice([1.0, cfg['rout'] / cfg['rin'], NAN, 0.5])), r.below(2)))
+                    lines.append("SETRATIO x=%s ramp=%d%s" % (f64hex(r.choice([1.0, cfg['rout'] / cfg['rin'], NAN, 0.5])), r.below(2), " via=vec" if len(lines) % 2 == 0 else ""))
                     ann.append(('sync', 0))
                 elif t == 1:
-                    lines.append("SETREL x=%s ramp=%d" % (f64hex(r.choice([1.0, 0.99, NAN])), r.below(2)))
+                    lines.append("SETREL x=%s ramp=%d%s" % (f64hex(r.choice([1.0, 0.99, NAN])), r.below(2), " via=vec" if len(lines) % 2 == 0 else ""))
                     ann.append(('sync', 0))
                 else:
                     lines.append("SETCHUNK n=%d" % r.choice([0, 1, cfg['chunk'], cfg['chunk'] + 1]))
@@ -699,11 +721,25 @@ def run_C16(ctx):
         mstr = mask if mask else '-'
         act = [(mask is None or mask[c] == '1') for c in range(nch)]
         k = 3 + r.below(5 if ctx.quick else 12)
+        if kind in gens.ASYNC and i % 2 == 1:
+            cfg['maxrel'] = max(cfg['maxrel'], 1.25)
+            head = ["T ty=%s" % cfg['ty'], new_line(cfg)]
+            a, b = list(head), list(head)
         for j in range(k):
             via = " via=vec" if r.chance(0.5) else ""
+            if kind in gens.ASYNC and i % 2 == 1 and j % 2 == 1:
+                # a moderate relative ratio change, ramped or not: the wrappers must still agree with the core call while it is
+                # pending; twin A sets it through the object-safe wrapper trait
+                x = [1.0 / 1.2, 1.15, 1.0, 0.9][(j // 2) % 4]
+                x = min(max(x, 1.0 / cfg['maxrel']), cfg['maxrel'])
+                rp = (j // 2) % 2
+                a.append("SETREL x=%s ramp=%d via=vec" % (f64hex(x), rp))
+                b.append("SETREL x=%s ramp=%d" % (f64hex(x), rp))
             t = r.below(6)
             il_full = ";".join('next' if act[c] else r.choice(['abs:0', 'next']) for c in range(nch))
-            ol_next = ";".join('next' if act[c] else 'abs:0' for c in range(nch))
+            # the core twin gets room for output_frames_max(): "the frames process_into_buffer would have written" must not
+            # depend on the wrapper's own sizing of its output vectors
+            ol_next = ";".join('max' if act[c] else 'abs:0' for c in range(nch))
             if t < 2:
                 a.append("PROCESS mask=%s inlen=%s sig=%s%s" % (mstr, il_full, sig, via))
                 b.append("PIB mask=%s inlen=%s outlen=%s sig=%s" % (mstr, il_full, ol_next, sig))
@@ -722,6 +758,33 @@ def run_C16(ctx):
                 b.append("PIB mask=%s inlen=%s outlen=%s sig=pad@%s@%s adv=%s" % (mstr, ";".join(['next'] * nch), ol, "|".join(ks), sig, "|".join(ks)))
         ca = Case("wr_%03d_%s_a" % (i, kind), a, {'cfg': cfg, 'act': act})
         cb = Case("wr_%03d_%s_b" % (i, kind), b, {'cfg': cfg, 'is_twin': True})
+        ca.meta['twin'] = cb
+        cases += [ca, cb]
+
+    # directed: the allocating wrappers while a ramped ratio change is pending (their output vectors are sized by
+    # output_frames_next(); the core call must accept exactly that), large enough chunks for the ramp to matter
+    for i, kind in enumerate(['fastin', 'sincin', 'fastout', 'sincout']):
+        r = rng.fork("c16_ramp_%d" % i)
+        cfg = async_cfg(r, kind, 'quick', nch=1)
+        cfg.update({'ratio': 1.0, 'maxrel': 2.0, 'chunk': 1024 if kind.startswith('fast') else 256})
+        if kind.startswith('sinc'):
+            cfg.update({'slen': 16, 'L': 16}); cfg['factor'] = max(cfg['factor'], 2)
+        head = ["T ty=%s" % cfg['ty'], new_line(cfg)]
+        sig = "rand:%d" % r.below(99999)
+        a, b = list(head), list(head)
+        def both(wa, wb):
+            a.append(wa); b.append(wb)
+        proc_a = "PROCESS mask=- inlen=next sig=%s" % sig
+        proc_b = "PIB mask=- inlen=next outlen=max sig=%s" % sig
+        both(proc_a, proc_b)
+        both("SETREL x=%s ramp=1 via=vec" % f64hex(1.25), "SETREL x=%s ramp=1" % f64hex(1.25))
+        both(proc_a + " via=vec", proc_b)
+        both(proc_a, proc_b)
+        both("SETREL x=%s ramp=1" % f64hex(0.8), "SETREL x=%s ramp=1" % f64hex(0.8))
+        both("PARTIAL mask=- inlen=c1:next-3 sig=%s" % sig, "PIB mask=- inlen=next outlen=max sig=pad@c1:next-3@%s adv=c1:next-3" % sig)
+        both(proc_a, proc_b)
+        ca = Case("wr_ramp_%d_%s_a" % (i, kind), a, {'cfg': cfg, 'act': [True]})
+        cb = Case("wr_ramp_%d_%s_b" % (i, kind), b, {'cfg': cfg, 'is_twin': True})
         ca.meta['twin'] = cb
         cases += [ca, cb]
 
@@ -1004,6 +1067,17 @@ def run_C04(ctx):
                     x = {2.0: 2.0, 0.5: 0.5, 1.0: 1.0}[hexf64(parse_kv(l)['x'])]
                     tr.set_ratio(x * cfg['ratio'], False); ops.append({'op': 'setrel', 'ratio': x, 'ramp': False})
             cases.append(Case("g_swing_%d_%s" % (j, k), lines, {'cfg': cfg, 'ops': ops, 'sig': sig}))
+        # directed: reset() while a smaller chunk size is in force (sinc types), then several calls
+        for j, k in enumerate(['sincout', 'sincin']):
+            r = ctx.rng.fork("c04_rstchunk_%d" % j)
+            cfg = async_cfg(r, k, 'quick', nch=2)
+            cfg.update({'ratio': 48000 / 44100, 'maxrel': 1.1, 'chunk': 256, 'slen': 16, 'L': 16}); cfg['factor'] = max(cfg['factor'], 2)
+            sig = "rand:%d" % r.below(9999)
+            pib = "PIB mask=- inlen=next;next outlen=next;next sig=%s" % sig
+            lines = ["T ty=%s" % cfg['ty'], new_line(cfg), pib, pib, "SETCHUNK n=32", pib, pib, "RESET", pib, pib, pib, pib]
+            ops = [{'op': 'pib', 'envelope': True}] * 2 + [{'op': 'setchunk'}] + [{'op': 'pib', 'envelope': True}] * 2 + [{'op': 'reset'}] + \
+                  [{'op': 'pib', 'envelope': True}] * 4
+            cases.append(Case("g_rstchunk_%d_%s" % (j, k), lines, {'cfg': cfg, 'ops': ops, 'sig': sig}))
     execute(ctx, cases, res, judge_C04, timeout=300)
     res['dist'].update(collections.Counter(c.meta['cfg']['kind'] for c in cases))
     return res
@@ -1100,6 +1174,24 @@ def run_C07(ctx):
             lines.append("SETCHUNK n=%d" % (b if j % 2 == 0 else a)); ops.append({'op': 'setchunk'})
             lines.append("PIB mask=- inlen=next outlen=next sig=%s" % sig); ops.append({'op': 'pib'})
         cases.append(Case("acc_alt_%02d_%s" % (i, k), lines, {'cfg': cfg, 'ops': ops, 'sig': sig}))
+    # directed: long runs of calls with every channel masked out (the bookkeeping must go on exactly as for active channels)
+    for i, k in enumerate(['sincout', 'fastout', 'sincin', 'fastin', 'fftout', 'fftin']):
+        if ctx.quick and i >= 3:
+            break
+        r = rng.fork("c07_mute_%d" % i)
+        if k in gens.ASYNC:
+            cfg = async_cfg(r, k, tier, nch=2)
+            cfg.update({'ratio': [48000 / 44100, 44100 / 48000, 1.2, 0.37][i % 4], 'maxrel': 1.0, 'chunk': [256, 480, 16, 100][i % 4]})
+            if k.startswith('sinc'):
+                cfg.update({'slen': 8, 'L': 8}); cfg['factor'] = max(cfg['factor'], 2)
+        else:
+            cfg = fft_cfg(r, k, tier, nch=2)
+        sig = "rand:%d" % r.below(9999)
+        on = "PIB mask=- inlen=next;next outlen=next;next sig=%s" % sig
+        off = "PIB mask=00 inlen=abs:0;abs:0 outlen=abs:0;abs:0 sig=%s" % sig
+        nmute = 300 if ctx.quick else 1500
+        lines = ["T ty=%s" % cfg['ty'], new_line(cfg)] + [on] * 10 + [off] * nmute + [on] * 10
+        cases.append(Case("acc_mute_%02d_%s" % (i, k), lines, {'cfg': cfg, 'ops': [{'op': 'pib'}] * (20 + nmute), 'sig': sig, 'no_model': nmute > 400}))
     execute(ctx, cases, res, judge_C07, timeout=600)
     res['dist'].update(collections.Counter(c.meta['cfg']['kind'] for c in cases))
     res['dist']['total_calls'] = sum(len(c.meta['ops']) for c in cases)
@@ -1294,6 +1386,17 @@ def run_C14(ctx):
         for _ in range(int((n0 + 900) / max(1, cfg['chunk'] if k == 'fastin' else cfg['chunk'] / new_ratio)) + 6):
             lines.append("PIB mask=- inlen=next outlen=max sig=imp:%d" % n0)
         cases.append(Case("imp_set_%d_%s" % (j, k), lines, {'cfg': cfg, 'n0': n0, 'ratio': new_ratio}))
+    # ... and the delay after a job at another ratio followed by reset(): back to the constructed ratio
+    for j, k in enumerate(['fastin', 'fastout']):
+        r = rng.fork("c14_rst_%d" % j)
+        cfg = async_cfg(r, k, tier, nch=1, ty='f64')
+        cfg.update({'ratio': 1.5, 'maxrel': 4.0, 'chunk': r.choice([32, 64]), 'deg': r.choice([0, 1, 2, 3])})
+        n0 = 300 + r.below(200)
+        warm = "PIB mask=- inlen=next outlen=max sig=zero"
+        lines = ["T ty=f64", new_line(cfg), "SETRATIO x=%s ramp=0" % f64hex(4.5), warm, warm, "RESET"]
+        for _ in range(int((n0 + 900) / max(1, cfg['chunk'] if k == 'fastin' else cfg['chunk'] / 1.5)) + 6):
+            lines.append("PIB mask=- inlen=next outlen=max sig=imp:%d" % n0)
+        cases.append(Case("imp_rst_%d_%s" % (j, k), lines, {'cfg': cfg, 'n0': n0, 'ratio': 1.5}))
     if not ctx.quick:
         # very large FFT blocks (implementation only: the delay must still be fft_size_out / 2)
         for j, (k, rin, rout, chunk) in enumerate([('fftinout', 44100, 48000, 16384), ('fftout', 96000, 44100, 8192), ('fftin', 48000, 48010, 9000),
@@ -1313,6 +1416,10 @@ def run_C14(ctx):
         ys = []
         delay = tr['init'].g[4]
         for s in tr['steps']:
+            if s.res == 'unit' and s.op == 'RESET':
+                ys = []                 # a new stream starts here
+                delay = s.g[4]
+                continue
             if s.res == 'unit' and not ys:
                 delay = s.g[4]          # output_delay() after a ratio change that precedes the stream
                 continue
@@ -1613,11 +1720,11 @@ def run_C11(ctx):
         nops = 3 + r.below(5)
         head = ["T ty=%s" % cfg['ty']]
 
-        kinds_seq = [r.below(5) for _ in range(nops)]
+        kinds_seq = [r.below(6) for _ in range(nops)]
         if k in ('sincin', 'sincout'):
             # chunk-size changes in mid-stream (one scalar of control state shared by all channels)
             nops += 3
-            kinds_seq = [r.below(7) for _ in range(nops)]
+            kinds_seq = [r.below(8) for _ in range(nops)]
         chunk_seq = [1 + r.below(max(1, cfg.get('chunk', 1))) for _ in range(nops)]
 
         def body(nchan, mk, sig, empty_masked):
@@ -1632,6 +1739,11 @@ def run_C11(ctx):
                     lines.append("PIB mask=%s inlen=%s outlen=%s sig=%s" % (mk or '-', il, ol, sig))
                 elif t == 4:
                     lines.append("PROCESS mask=%s inlen=%s sig=%s" % (mk or '-', il, sig))
+                elif t == 5:
+                    # a short last chunk through process_partial: active channels hold fewer frames than needed, masked ones may
+                    # be passed empty
+                    pl = ";".join('c1:next-3' if act[c] else ('abs:0' if empty_masked else 'c1:next-3') for c in range(nchan))
+                    lines.append("PARTIAL mask=%s inlen=%s sig=%s" % (mk or '-', pl, sig))
                 else:
                     lines.append("SETCHUNK n=%d" % chunk_seq[j])
             return lines
